@@ -8,6 +8,15 @@ class Crash(BaseException):
     pass
 
 
+def os_view(d):
+    """directory contents as the operating system sees them right now"""
+    out = {}
+    for fn in os.listdir(d):
+        with open(os.path.join(d, fn), "rb") as f:
+            out[fn] = f.read()
+    return out
+
+
 def main():
     import torch
     from native_util import patch_pulser_observable, make_sequence_data
@@ -34,6 +43,7 @@ def main():
         for crash_at in range(0, 12):
             for when in ("before", "after"):
                 count = {"n": 0}
+                snap = {}
 
                 def wrap(fn, label):
                     def w(*a, **k):
@@ -42,6 +52,7 @@ def main():
                         count["n"] += 1
                         me = count["n"]
                         if me == crash_at and when == "before":
+                            snap["files"] = os_view(work)
                             raise Crash(label)
                         count["depth"] = count.get("depth", 0) + 1
                         try:
@@ -49,6 +60,7 @@ def main():
                         finally:
                             count["depth"] -= 1
                         if me == crash_at and when == "after":
+                            snap["files"] = os_view(work)
                             raise Crash(label)
                         return r
                     return w
@@ -65,14 +77,16 @@ def main():
                     for n in names:
                         setattr(M.os, n, orig[n])
                     M.pickle.dump = orig_dump
-                ok = adv.is_file()
+                # what a killed process leaves behind is what the OS had at the crash moment (data
+                # still in Python's user-space buffers is lost), not what exception unwinding flushes
+                files = snap.get("files") if crashed is not None else os_view(work)
+                ok = adv.name in files
                 if ok:
                     try:
-                        with open(adv, "rb") as f:
-                            pickle.load(f)
+                        pickle.loads(files[adv.name])
                     except Exception as e:
                         ok = False
-                        why = f"not loadable: {type(e).__name__}"
+                        why = f"not loadable ({len(files[adv.name])} bytes at the crash moment): {type(e).__name__}"
                 else:
                     why = "missing"
                 if not ok and bad is None:
